@@ -121,6 +121,23 @@ Definition lm_run (c : scfg (F:=Q)) (reject : nat) (script : list (option Q)) (s
              | None => [None]
              end
     end in go calls s0.
+(* a second scripted universe with a NONLINEAR residual r(th) = th^2 - c  (loss r^2, J = 2 th0, R = th0^2 - c):
+   pred c th0 d = -(J d)(2 R + J d).  Here the quality ratio takes every value, so all three branches of the
+   Adaptive / TrustRegion updates are reached (in the linear universe above the quality is always 1 or 0/0). *)
+Definition quad_loss (c t : Q) : Q := let r := (t * t - c)%Q in Qred (r * r)%Q.
+Definition quad_pred (c t0 d : Q) : Q := let jd := (2 * t0 * d)%Q in Qred (- (jd * (2 * (t0 * t0 - c) + jd)))%Q.
+Definition lm_run_quad (cc : Q) (c : scfg (F:=Q)) (reject : nat) (script : list (option Q)) (s0 : ost (F:=Q) Q) (calls : nat)
+  : list (option lm_obs) :=
+  let fix go (n : nat) (s : ost (F:=Q) Q) :=
+    match n with
+    | O => []
+    | S m => match lm_step Q Q (quad_loss cc) (fun t d => Qred (t + d)) (fun d => Qred (- d)) (quad_pred cc) (script_solve script) c reject s with
+             | Some (s', r) => Some {| o_ret := r; o_th := th s'; o_last := last s'; o_rej := rej s';
+                                       o_damp := damping (ss s'); o_rad := radius (ss s'); o_down := down (ss s');
+                                       o_nsolve := nsolve s' |} :: go m s'
+             | None => [None]
+             end
+    end in go calls s0.
 Definition obs_eqb (a b : option lm_obs) : bool :=
   match a, b with
   | Some x, Some y => Qeq_bool (o_ret x) (o_ret y) && Qeq_bool (o_th x) (o_th y) && Qeq_bool (o_last x) (o_last y)
@@ -144,6 +161,13 @@ Definition lm_bad (cs : list lm_case) : list nat :=
                     high := h; low := l; up := u; down0 := d0; factor := f; smin := mn; smax := mx |} in
       let s0 := {| th := t0; cached := None; last := 0%Q; rej := 0; ss := {| damping := dm; radius := ra; down := dn |}; nsolve := 0 |} in
       negb (obsl_eqb (lm_run cfg rj script s0 (length obs)) (map mk_obs obs)) end) cs).
+Definition lm_bad_quad (cs : list (Q * lm_case)) : list nat :=
+  map (fun c => match c with (_, (i, _, _, _, _, _, _, _)) => i end)
+   (filter (fun c => match c with (cc, (_, k, (h, l, u, d0, f, mn, mx), (dm, ra, dn), rj, t0, script, obs)) =>
+      let cfg := {| kind := match k with 0 => SConstant | 1 => SAdaptive | _ => STrust end;
+                    high := h; low := l; up := u; down0 := d0; factor := f; smin := mn; smax := mx |} in
+      let s0 := {| th := t0; cached := None; last := 0%Q; rej := 0; ss := {| damping := dm; radius := ra; down := dn |}; nsolve := 0 |} in
+      negb (obsl_eqb (lm_run_quad cc cfg rj script s0 (length obs)) (map mk_obs obs)) end) cs).
 (* GN in the same universe: observed (ret, th, last, nsolve) per call; None = raised *)
 Definition gn_run (script : list (option Q)) (t0 : Q) (calls : nat) : list (option (Q * Q * Q * nat)) :=
   let fix go (n : nat) (s : ost (F:=Q) Q) :=
